@@ -219,7 +219,8 @@ pub fn start_tracker_cleaning(sw: u8, wm: u8, cleaning: Value) -> Tracker {
 
 fn hash_for(ns: u64, t: u8, pl: &Placement, wm: u8) -> [u8; 20] {
     let mut h = [0u8; 20];
-    h[0] = if t >= 8 { (t - 8) % wm } else { pl.torrent_worker[t as usize] % wm };
+    // any first byte that maps to the chosen swarm worker: w, w + n, w + 2n, ... chosen by the namespace
+    h[0] = (if t >= 8 { (t - 8) % wm } else { pl.torrent_worker[t as usize] % wm }) + wm * (ns % (256 / wm as u64)) as u8;
     h[1..9].copy_from_slice(&ns.to_be_bytes());
     h[9] = t;
     for (i, x) in h.iter_mut().enumerate().skip(10) {
@@ -1132,6 +1133,15 @@ pub fn main(args: &Args) -> ! {
                     let ns = NS.fetch_add(1, Ordering::Relaxed);
                     let params = Params { conns: 3, torrents: 2, offers: p_main.offers.clone(), kinds: p_main.kinds.clone(), foreign: true, answers: true, scrapes: p_main.scrapes.clone() };
                     let r = replay(&trk, &params, path, ns, pl);
+                    // a tracker whose run() has returned is not a tracker that is hard to reach
+                    if r.1.is_some() {
+                        if let Some(line) = trk.child.line_with_wait("RUN-RETURNED", 300) {
+                            if stopped.swap(1, Ordering::Relaxed) == 0 {
+                                viols.lock().unwrap().push(("ws/tracker-exited".to_string(), format!("{}: the tracker's run() returned while requests were being served ({}); last path: {:?}, outcome {:?}", trk.label, line, path, r.1), json!({"path": path, "socket_workers": sw, "swarm_workers": wm, "conn_worker": pl.conn_worker, "torrent_worker": pl.torrent_worker})));
+                            }
+                            return ((r.0, None), (*path).clone(), pl.clone());
+                        }
+                    }
                     if r.1.as_ref().map(|(sig, _)| sig != "ws/second-peer-id/error-reply-lost").unwrap_or(false) {
                         failed_total.fetch_add(1, Ordering::Relaxed);
                     }
